@@ -816,6 +816,9 @@ func ProtoRule(w *World, r *Result, rule string, only func(node string) bool) *D
 		if _, isRec := df.rec[d.Fn]; isRec && d.Node != "Block" {
 			continue // the dispatchers themselves
 		}
+		if df.partOfHandler(d) {
+			continue // a part of the handler of this node type, judged with the handler that calls it
+		}
 		seenNode[d.Node] = true
 		key := "proto:" + d.Node + "@" + d.Fn.Name()
 		pos := w.Pos(d.Fn.Pos())
@@ -989,6 +992,9 @@ func BracketProtoRule(w *World, r *Result, rule string) {
 		if _, isRec := df.rec[d.Fn]; isRec && d.Node != "Block" {
 			continue
 		}
+		if df.partOfHandler(d) {
+			continue
+		}
 		seen[d.Node] = true
 		key := "bracket:" + d.Node + "@" + d.Fn.Name()
 		pos := w.Pos(d.Fn.Pos())
@@ -1140,4 +1146,18 @@ func StaleListRule(w *World, r *Result, rule string) {
 	if n == 0 {
 		r.Ok(rule, "stale:none", "-", "no list that is handed on per iteration survives from one iteration of a driver loop to the next")
 	}
+}
+
+// partOfHandler: d takes the same node type as a driver function that calls it: it is a piece
+// split off that handler (its events are spliced into the caller's), not a handler itself.
+func (df *DriverFacts) partOfHandler(d *DriverFn) bool {
+	for _, o := range df.Fns {
+		if o == d || o.Node != d.Node || o.Node == "" {
+			continue
+		}
+		if callsStatically(o.Fn, d.Fn) && !callsStatically(d.Fn, o.Fn) {
+			return true
+		}
+	}
+	return false
 }
